@@ -301,7 +301,7 @@ def _get_or_make_region(
           origin_y = line_offset - extent_height / 2
         else:
           extent_width = min(line_offset, 100 - line_offset) * 2
-          origin_x = line_offset - extent_height / 2
+          origin_x = line_offset - extent_width / 2
         display_align = styles.DisplayAlignType.center
       elif line_align == "start":
         if writing_mode in (styles.WritingModeType.rltb, styles.WritingModeType.lrtb):
